@@ -83,9 +83,9 @@ def main():
     na = [{"property_id": p["id"], "reason": NOT_YET} for p in props if p["id"] not in CLAIMS]
     m = {"version": 1, "setup_cmd": "sh tools/setup.sh",
          "hooks": {"guard": "gufo_snmp_verif",
-                   "enable": "no hooks are needed: the Rust harness compiles /repo/src inside its own crate (generated crate root), the e2e harness uses the real extension",
+                   "enable": "RUSTFLAGS='--cfg gufo_snmp_verif' (harness/rust/build.sh sets it for the in-crate Rust harness; the Python extension used by the e2e checks is built WITHOUT it). One hook: PrivKey::set_salt_value (start value of the DES / AES salt counter) used by the C14 wrap-around stream; everything else needs no hook: the Rust harness compiles /repo/src inside its own crate (generated crate root), the e2e harness uses the real extension",
                    "baseline_off_cmd": "cd /repo && cargo test --workspace --no-fail-fast --offline",
-                   "source_commits": [], "add_only": True},
+                   "source_commits": ["395f6e3"], "add_only": True},
          "engines": [{"name": "lean-proof+correspondence", "path": "/verif/lean, /verif/tools, /verif/harness",
                       "serves_properties": sorted(CLAIMS),
                       "kind_free_text": "Lean 4 model + theorems; generated constants; compiled model driver vs Rust in-crate harness and Python e2e harness"}],
